@@ -2,9 +2,10 @@
 C19 — abstract specification: the property read literally, in terms of leases (no Redis commands).
 
 State: a clock, per key at most one lease (holder id, time until which it is held), per instance its
-configured seconds.
+configured seconds, and the boundary convention `grace` (0: the lease ends exactly at its length, 1: real
+Redis, one millisecond later).
   * Acquire by `id` on key `k` succeeds iff no *other* id holds `k` unexpired; then `id` holds `k` until
-    now + seconds·1000 + 500 (a re-acquire by the holder refreshes the lease).  Otherwise nothing changes.
+    now + seconds·1000 + 500 (+ grace) (a re-acquire by the holder refreshes the lease).  Otherwise nothing changes.
   * Release by `id` frees `k` and reports true iff `id` is the current unexpired holder; otherwise it
     reports false and nothing changes.
 `explain` words a disagreement between this spec and an observed result in the property's terms; the
@@ -23,8 +24,11 @@ structure ASt where
   now   : Nat
   lease : String → Option Lease
   secs  : Nat → Nat
+  grace : Nat := 0     -- boundary convention of the store (see Store.lean): a lease outlives its length by `grace` ms
 
-def ASt.init : ASt := { now := 0, lease := fun _ => none, secs := fun _ => 0 }
+def ASt.initG (g : Nat) : ASt := { now := 0, lease := fun _ => none, secs := fun _ => 0, grace := g }
+
+def ASt.init : ASt := ASt.initG 0
 
 /-- the unexpired lease on `k`, if any -/
 def ASt.holder (a : ASt) (k : String) : Option Lease :=
@@ -42,7 +46,7 @@ def ASt.freeFor (a : ASt) (k id : String) : Bool :=
   | some l => l.holder == id
 
 def ASt.grant (a : ASt) (k id : String) (seconds : Nat) : ASt :=
-  { a with lease := updL a.lease k (some { holder := id, till := a.now + (seconds * 1000 + 500) }) }
+  { a with lease := updL a.lease k (some { holder := id, till := a.now + (seconds * 1000 + 500) + a.grace }) }
 
 def ASt.heldBy (a : ASt) (k id : String) : Bool :=
   match a.holder k with
@@ -65,7 +69,7 @@ def results (cfg : Nat → LockCfg) : ASt → List Op → List Bool
 
 /-- observable view of a key: (holder id, remaining ms) -/
 def ASt.view (a : ASt) (k : String) : Option (String × Int) :=
-  (a.holder k).map fun l => (l.holder, (l.till : Int) - (a.now : Int))
+  (a.holder k).map fun l => (l.holder, (l.till : Int) - (a.grace : Int) - (a.now : Int))
 
 /-- the property's wording for a result that differs from the spec's (monitor message). -/
 def explain (cfg : Nat → LockCfg) (a : ASt) (op : Op) (impl : Bool) : Option String :=
